@@ -8,7 +8,7 @@ from vf.model import layout
 
 LABELS = ['tbl_end', 'msg2', 'Zed', 'k_val', 'fwd_lab']
 ESCAPES = {'\\n': 10, '\\t': 9, '\\r': 13, '\\\\': 92, '\\x41': 0x41, '\\x7f': 0x7f, '\\x00': 0, '\\xfe': 0xfe}
-PLAIN = [c for c in map(chr, range(32, 127)) if c not in ';"\'\\']
+PLAIN = [c for c in map(chr, range(32, 127)) if c not in '"\'\\']
 WIDTH = {'.byte': 1, '.2byte': 2, '.4byte': 4, '.8byte': 8}
 
 
